@@ -3,3 +3,6 @@ import CModel.Ledger
 import CModel.DriverUtil
 import CModel.SpiceDriver
 import CModel.LedgerDriver
+import CModel.Walker
+import CModel.WalletFile
+import CModel.Handlers
